@@ -7,7 +7,7 @@ import infretis.classes.path as ipath
 import infretis.core.tis as tis
 from infretis.classes.engines.enginebase import EngineBase
 from oracles import ensemble as E
-from symx import npfacade
+from symx import core, npfacade
 from symx.stubs import InvRng, ScriptEngine, mk_path, orders_of, tags_of
 
 logging.disable(logging.CRITICAL)
@@ -215,6 +215,7 @@ def _sh(ctx, sh):
     try:
         md, calls = _run_move(ctx, ens_set, old, eng, ens_num, full, moves, None)
     except Exception as e:
+        core.reraise_if_proxy_limitation(e)
         ctx.fail("C09:no-exception", repr(e))
         return
     status = md["status"]
@@ -336,6 +337,7 @@ def _wf(ctx, sh):
         ctx.fail("C09:wire-fencing-internal-assertion", repr(e))
         return
     except Exception as e:
+        core.reraise_if_proxy_limitation(e)
         ctx.fail("C09:no-exception", repr(e))
         return
     status = md["status"]
